@@ -1,6 +1,7 @@
 """C09 -- an automaton's three views stay coherent (V1, V2, B1, U1)."""
 from ..rules import fsa_rules as F
-from ..rules.common import u1
+from ..rules import cache_rules as CA
+from ..rules.common import u1, n1
 
 REL = F.FSA_REL
 ENTRIES = [(REL, "FSA." + m) for m in (
@@ -20,6 +21,8 @@ def run(ctx):
     F.rule_v1(ctx)
     F.rule_v2(ctx)
     F.rule_b1(ctx)
+    n1(ctx, ["geometry_tools/automata/fsa.py", "geometry_tools/automata/kbmag_utils.py"])
+    CA.rule_c2(ctx, "FSA")
     u1(ctx, ENTRIES, min_functions=25)
     ctx.r.assume("set-based model equality over histories and the GAP "
                  "parser's string semantics are not decided (numerical / "
